@@ -1,0 +1,123 @@
+//go:build verif
+// +build verif
+
+// Package verifhook provides named hook points for runtime verification
+// harnesses. This file is only compiled with the "verif" build tag.
+//
+// A harness installs a callback with Set; binaries can be given delays through
+// the environment: VERIF_HOOKS="name=sleep:5ms;other=sleep:1ms:25%" (the
+// optional last field is the probability that the delay is applied).
+package verifhook
+
+import (
+	"math/rand"
+	"os"
+	"strconv"
+	"strings"
+	"sync"
+	"sync/atomic"
+	"time"
+)
+
+// Enabled reports whether hooks are compiled in.
+const Enabled = true
+
+type entry struct {
+	fn    atomic.Value // holder
+	hits  int64
+	sleep int64 // nanoseconds, accessed atomically
+	prob  int64 // probability in millionths, accessed atomically
+}
+
+var (
+	mu      sync.RWMutex
+	entries = map[string]*entry{}
+)
+
+func get(name string, create bool) *entry {
+	mu.RLock()
+	e := entries[name]
+	mu.RUnlock()
+	if e != nil || !create {
+		return e
+	}
+	mu.Lock()
+	defer mu.Unlock()
+	if e = entries[name]; e == nil {
+		e = &entry{}
+		entries[name] = e
+	}
+	return e
+}
+
+type holder struct{ f func(args ...interface{}) }
+
+// Point marks a named point in the code: counts the hit, applies the
+// configured delay and runs the installed callback, if any.
+func Point(name string, args ...interface{}) {
+	e := get(name, true)
+	atomic.AddInt64(&e.hits, 1)
+	if d := atomic.LoadInt64(&e.sleep); d > 0 {
+		if p := atomic.LoadInt64(&e.prob); p >= 1000000 || rand.Int63n(1000000) < p {
+			time.Sleep(time.Duration(d))
+		}
+	}
+	if h, ok := e.fn.Load().(holder); ok && h.f != nil {
+		h.f(args...)
+	}
+}
+
+// Set installs (or, with nil, removes) the callback of a hook point.
+func Set(name string, f func(args ...interface{})) {
+	get(name, true).fn.Store(holder{f})
+}
+
+// SetSleep configures a delay applied at the point with probability prob.
+func SetSleep(name string, d time.Duration, prob float64) {
+	e := get(name, true)
+	atomic.StoreInt64(&e.prob, int64(prob*1000000))
+	atomic.StoreInt64(&e.sleep, int64(d))
+}
+
+// Hits returns how often the point was reached.
+func Hits(name string) int64 {
+	if e := get(name, false); e != nil {
+		return atomic.LoadInt64(&e.hits)
+	}
+	return 0
+}
+
+// AllHits returns the hit counters of all points reached or configured.
+func AllHits() map[string]int64 {
+	mu.RLock()
+	defer mu.RUnlock()
+	out := make(map[string]int64, len(entries))
+	for k, e := range entries {
+		out[k] = atomic.LoadInt64(&e.hits)
+	}
+	return out
+}
+
+func init() {
+	for _, item := range strings.Split(os.Getenv("VERIF_HOOKS"), ";") {
+		kv := strings.SplitN(strings.TrimSpace(item), "=", 2)
+		if len(kv) != 2 {
+			continue
+		}
+		f := strings.Split(kv[1], ":")
+		if len(f) < 2 || f[0] != "sleep" {
+			continue
+		}
+		d, err := time.ParseDuration(f[1])
+		if err != nil {
+			continue
+		}
+		prob := 1.0
+		if len(f) >= 3 {
+			if p, err := strconv.ParseFloat(strings.TrimSuffix(f[2], "%"), 64); err == nil {
+				prob = p / 100
+			}
+		}
+		SetSleep(kv[0], d, prob)
+	}
+}
